@@ -1,7 +1,7 @@
 (* Properties/C02.v -- Encoder output is a conformant ISO/IEC 16022 data codeword stream (the parts that are theorems). *)
 From Coq Require Import Arith NArith List Bool.
 From DM Require Import Generated.Symbols Generated.ModeTables Spec.GF256 Spec.RSCode Model.Outcome Model.SymbolList Model.Planner Model.Enc
-  Model.RSEnc Model.GF Model.PlannerRun Model.Api Proofs.SymbolListProofs Proofs.RSEncProofs Proofs.RSEncLen Proofs.EncLocal Proofs.EncTop Spec.Stream16022 Spec.Recognise Model.Dec Proofs.EncAscii Proofs.PlanAscii Proofs.EncB256 Proofs.DecScript Proofs.Certify Proofs.EncAB Proofs.EncAX Proofs.EncAC.
+  Model.RSEnc Model.GF Model.PlannerRun Model.Api Proofs.SymbolListProofs Proofs.RSEncProofs Proofs.RSEncLen Proofs.EncLocal Proofs.EncTop Spec.Stream16022 Spec.Recognise Model.Dec Proofs.EncAscii Proofs.PlanAscii Proofs.EncB256 Proofs.DecScript Proofs.Certify Proofs.EncAB Proofs.EncAX Proofs.EncAC Proofs.EncMulti.
 Import ListNotations.
 Local Open Scope N_scope.
 
@@ -196,6 +196,32 @@ Theorem C02_fnc1_ac_conformant : forall (text : bool) sorter data symbols modes 
   exists script npad, script_ok script npad = true /\ cw = stream_with 232 script npad /\ meaning script = data /\ Forall (ac_seg text) script.
 Proof. intros t so d sy mo um cw s HS HM OK H. exact (proj1 (fnc1_ac_roundtrip t so d sy mo um cw s HS HM OK H)). Qed.
 Print Assumptions C02_fnc1_ac_conformant.
+
+(* and for plans that mix ASCII, Base256, X12, C40 and Text (any planner, any mode set -- the default configuration included) in which no
+   non-ASCII run starts within the last two characters (`p5b`, Proofs/EncMulti.v): the stream is the rendering of a legal script without
+   EDIFACT segments *)
+Theorem C02_mixed_plan_conformant : forall optimize_fn data symbols modes cw s,
+  (forall p, optimize_fn data 0 symbols modes = Ok (Some p) -> p5b p = true) -> bytes_ok data = true ->
+  encode_data_internal optimize_fn data symbols None modes false false = Ok (cw, s) ->
+  exists script npad, script_ok script npad = true /\ cw = stream script npad /\ meaning script = data /\ Forall seg_no_edi script.
+Proof. intros o d sy m cw s HP OK H. exact (proj1 (plan5_roundtrip o sy m d (fun p E => p5b_P5 p (HP p E)) cw s OK H)). Qed.
+Print Assumptions C02_mixed_plan_conformant.
+
+Theorem C02_mixed_plan_macro_conformant : forall optimize_fn symbols modes msg body m head cw s,
+  (forall p, optimize_fn body 1 symbols modes = Ok (Some p) -> p5b p = true) -> bytes_ok body = true ->
+  (m = MACRO05 /\ head = MACRO05_HEAD) \/ (m = MACRO06 /\ head = MACRO06_HEAD) ->
+  msg = head ++ body ++ MACRO_TRAIL ->
+  encode_data_internal optimize_fn msg symbols None modes true false = Ok (cw, s) ->
+  exists script npad, script_ok script npad = true /\ cw = stream_with m script npad /\ meaning script = body /\ Forall seg_no_edi script.
+Proof. intros o sy mo msg b m h cw s HP OK HM HD H. exact (proj1 (macro_plan5_roundtrip o sy mo msg b m h cw s (fun p E => p5b_P5 p (HP p E)) OK HM HD H)). Qed.
+Print Assumptions C02_mixed_plan_macro_conformant.
+
+Theorem C02_mixed_plan_fnc1_conformant : forall optimize_fn symbols modes msg use_macros cw s,
+  (forall p, optimize_fn msg 1 symbols modes = Ok (Some p) -> p5b p = true) -> bytes_ok msg = true ->
+  encode_data_internal optimize_fn msg symbols None modes use_macros true = Ok (cw, s) ->
+  exists script npad, script_ok script npad = true /\ cw = stream_with 232 script npad /\ meaning script = msg /\ Forall seg_no_edi script.
+Proof. intros o sy mo msg um cw s HP OK H. exact (proj1 (fnc1_plan5_roundtrip o sy mo msg um cw s (fun p E => p5b_P5 p (HP p E)) OK H)). Qed.
+Print Assumptions C02_mixed_plan_fnc1_conformant.
 
 
 (* (vi) for the other plans conformance is decided per output by a certificate whose check is proved sound here: the
